@@ -371,6 +371,22 @@ def gen_wrap(rng):
     return out
 
 
+def gen_corr0(rng):
+    """a frame whose header carries correlation id 0 at every position of a pipeline of mixed requests, for brokers
+    that negotiate FindCoordinator v0 (the 0.8.2 quirk applies to that version ONLY) and v1 (it is a mismatch)"""
+    out = []
+    for versions in (VERS_A, VERS_B):
+        for apis in (["lg", "fc", "dr"], ["fc", "fc", "apr"], ["apr", "lpr", "fc"], ["fc"], ["lg", "dr", "fc", "fc"]):
+            n = len(apis)
+            for pos in range(n):
+                steps = [["send", a, j % 2, None] for j, a in enumerate(apis)]
+                steps += [G(i + 1, corr=0) if i == pos else G(i + 1) for i in range(n)]
+                total = sum(frame_bytes(a, versions) for a in apis)
+                steps += _deliver(rng, rng.choice(["whole", "rand"]), total) + [["probe"]]
+                out.append(sc("corr0", versions, steps, corr0=rng.choice([5, 17, 1000])))
+    return out
+
+
 def behaviours_to_scripts(behs, rng):
     """TLC behaviours of Sim_Connection -> scripts.  Model correlation ids are mapped so that
     the real counter wraps at the same request as the model's (CorrMax = 3)."""
@@ -612,7 +628,7 @@ def run(ctx) -> Report:
             scs += gen_eofreset(rng, ["lg", "apr", "fc"], VERS_B)
         scs += gen_unsolicited(rng, VERS_A)
         scs += gen_timing(rng, VERS_A) + (gen_timing(rng, VERS_B) if not q else [])
-        scs += gen_wrap(rng) + gen_samedeadline(rng, VERS_A)
+        scs += gen_wrap(rng) + gen_samedeadline(rng, VERS_A) + gen_corr0(rng)
 
         traces, ver = conformance(rep, ctx, scs, "all")
         binding_selftest(scs, traces, ver)
